@@ -1,4 +1,4 @@
-import Dawn.Proofs.MvsSpec
+import Dawn.Proofs.MvsDowngrade
 /-!
 # C10 — the resolved build list is the minimal-version-selection solution
 
@@ -132,6 +132,189 @@ example : BuildList 50 env' cfg = BuildList 50 env cfg := by rfl
 
 /-- too little fuel is reported as such, not as a list -/
 example : BuildList 3 env cfg = .error .fuel := by rfl
+
+end Example
+
+/-!
+# C11 — requirement edits keep the requirement graph consistent
+
+`Get`, `Tidy`, `UpgradeAll` are the models of dawn's functions of the same names (`internal/mvs/get.go`), all three
+`transformReqs` around an operation of `github.com/pgavlin/mvs` followed by `ReqList`; tied to the sources by
+`Dawn/Ties/MvsEdit.lean` and by the correspondence stream `mvs.edit`. Hypotheses that recur:
+`WellFormed e roots` — what `LoadConfigBytes` guarantees of every project file (paths non-empty, versions canonical);
+`(c.map (·.1)).Nodup` — a project file is a map: no name twice. `fuel` arguments only have to be large enough for the
+runs that are assumed to succeed (partial correctness; `Err.fuel` is an outcome of the model, not an answer).
+-/
+
+/-- C11, tidy: the requirements `Tidy` returns resolve to the same build list as the original ones — the very same
+list, whatever fuel each run had. -/
+theorem C11_tidy (e : Env) (c c' : Config) (fuel fuel0 fuel' : Nat) (bl bl' : List Mod)
+    (hwf : WellFormed e (c.map (·.2))) (ht : Tidy fuel e c = .ok c')
+    (hbl : BuildList fuel0 e c = .ok bl) (hbl' : BuildList fuel' e c' = .ok bl') : bl' = bl :=
+  tidy_preserves e c c' fuel fuel0 fuel' bl bl' hwf ht hbl hbl'
+
+/-- C11, upgrading one project (`get p@q` with any query that resolves to `version`, when the current build list does
+not have `p` above `version`: add, no-op or upgrade): the new requirements' build list has `p` at the resolved version
+or above, and every project of the old build list at its old version or above. Nothing is lowered, nothing disappears. -/
+theorem C11_upgrade (e : Env) (c c' : Config) (q : String) (fuel fuel' : Nat) (bl bl' : List Mod) (version : Mod)
+    (hwf : WellFormed e (c.map (·.2))) (hget : Get fuel e c q = .ok c') (hbl : BuildList fuel e c = .ok bl)
+    (hres : resolveVersionQuery e bl (parseVersionQuery q) = .ok version) (hver : okReq version)
+    (hup : ∀ cur ∈ bl, cur.path = version.path → semverCompare cur.ver version.ver ≠ .gt)
+    (hbl' : BuildList fuel' e c' = .ok bl') :
+    (∃ v, (⟨version.path, v⟩ : Mod) ∈ bl' ∧ Ver.le version.ver v) ∧
+    (∀ m ∈ bl, ∃ v, (⟨m.path, v⟩ : Mod) ∈ bl' ∧ Ver.le m.ver v) :=
+  get_upgrade hwf hget hbl hres hver hup hbl'
+
+/-- C11, upgrading all projects: every project of the old build list is in the new one at the version `Reqs.Upgrade`
+resolves for it (its newest tag of the same major version) or above, and at its old version or above. -/
+theorem C11_upgrade_all (e : Env) (c c' : Config) (fuel fuel' : Nat) (bl bl' : List Mod)
+    (hwf : WellFormed e (c.map (·.2))) (htags : ∀ t ∈ e.tags, okReq t)
+    (h : UpgradeAll fuel e c = .ok c') (hbl : BuildList fuel e c = .ok bl) (hbl' : BuildList fuel' e c' = .ok bl') :
+    ∀ m ∈ bl, ∃ v, (⟨m.path, v⟩ : Mod) ∈ bl' ∧ Ver.le m.ver v ∧ ∀ u, upgradeLatest e m = some u → Ver.le u.ver v :=
+  upgradeAll_dominates hwf htags h hbl hbl'
+
+/-- C11, names (every edit is `transformReqs` around an operation that returned `nv`): no name is used twice; a project
+that is still required keeps each of its names; every entry of the result is an old name still on its old project, or
+a (single, by the first clause unique) name for a project that had none. -/
+theorem C11_names (e : Env) (c c' : Config) (tx : List Mod → Except Err (List Mod)) (nv : List Mod)
+    (h : transformReqs e c tx = .ok c') (htx : tx (c.map (·.2)) = .ok nv) (hnd : (c.map (·.1)).Nodup) :
+    (c'.map (·.1)).Nodup ∧
+    (∀ n r, (n, r) ∈ c → (∃ v ∈ nv, v.path = r.path ∧ v.path ≠ "") → ∃ v, (n, v) ∈ c' ∧ v.path = r.path) ∧
+    (∀ n v, (n, v) ∈ c' → (∃ r, (n, r) ∈ c ∧ r.path = v.path) ∨ (v ∈ nv ∧ ¬ ∃ o ∈ c, o.2.path = v.path)) :=
+  transformReqs_names h htx hnd
+
+/-- C11, repeating tidy changes nothing -/
+theorem C11_idem_tidy (e : Env) (c c' c'' : Config) (fuel fuel' : Nat)
+    (hwf : WellFormed e (c.map (·.2))) (hnames : (c.map (·.1)).Nodup)
+    (h1 : Tidy fuel e c = .ok c') (h2 : Tidy fuel' e c' = .ok c'') : c'' = c' :=
+  tidy_idem hwf hnames h1 h2
+
+/-- C11, repeating upgrade-all changes nothing -/
+theorem C11_idem_upgrade_all (e : Env) (c c' c'' : Config) (fuel fuel' : Nat)
+    (hwf : WellFormed e (c.map (·.2))) (htags : ∀ t ∈ e.tags, okReq t) (hnames : (c.map (·.1)).Nodup)
+    (h1 : UpgradeAll fuel e c = .ok c') (h2 : UpgradeAll fuel' e c' = .ok c'') : c'' = c' :=
+  upgradeAll_idem hwf htags hnames h1 h2
+
+/-- C11, repeating `get p@q`: if the first call landed — the build list of its result has `p` at the version the query
+resolves to — the second call returns the file unchanged. (The excluded case is the known findings D15 / D15b: a call
+that could not land is followed by a call that takes another branch.) -/
+theorem C11_get_idem (e : Env) (c c' : Config) (q : String) (fuel0 fuel : Nat) (bl' : List Mod) (version : Mod)
+    (hnames : (c.map (·.1)).Nodup) (hget : Get fuel0 e c q = .ok c')
+    (hwf' : WellFormed e (c'.map (·.2))) (hbl' : BuildList fuel e c' = .ok bl')
+    (hres : resolveVersionQuery e bl' (parseVersionQuery q) = .ok version) (hver : okReq version)
+    (hland : version ∈ bl') : Get fuel e c' q = .ok c' :=
+  get_landed_noop hwf' (transformReqs_sorted hget hnames) hbl' hres hver hland
+
+/-- C11, the downgrade loop terminates: when `Previous` answers `"none"` or a strictly smaller version out of a finite
+set `vs` (to which the versions the downgrade names belong), the loop `for excluded[r]` of `mvs.Downgrade` ends after at
+most `|vs| + 1` iterations (given that the bounded recursion `add` has enough fuel, a separate matter). -/
+theorem C11_downgrade_terminates (fuel : Nat) (rq : Reqs) (prev : Mod → Option Mod) (maxv : Sel) (vs : List Ver)
+    (hadd : ∀ st p, (add fuel rq maxv st p).isSome)
+    (hprev : ∀ r p, prev r = some p → p.ver = .none ∨ (p.ver ∈ vs ∧ cmpVersion p.ver r.ver = .lt))
+    (hmax : ∀ p v, maxv.lookup p = some v → v ∈ vs) (n : Nat) (st : DState) (r : Mod) (hn : vs.length < n) :
+    stepDown fuel rq prev maxv n st r ≠ .error .fuel := by
+  apply stepDown_terminates fuel rq prev maxv vs hadd hprev hmax
+  exact Nat.lt_of_le_of_lt (List.length_filter_le _ _) hn
+
+/-- `Reqs.Previous` as it is now satisfies the hypothesis of `C11_downgrade_terminates` with `vs` = the tagged versions -/
+theorem C11_previous_decreases (e : Env) (r p : Mod) (hr : r.path ≠ "") (hrv : r.ver ≠ .root) (h : previous e r = some p) :
+    p.ver = .none ∨ (p.ver ∈ e.tags.map (·.ver) ∧ cmpVersion p.ver r.ver = .lt) :=
+  previous_decreases e r p hr hrv h
+
+/-- D13 (fixed; regression witness): the old `Reqs.Previous`, asked for the version before `""`, answers `""`, and the
+loop `for excluded[r]` that has reached such a module never ends, whatever the number of iterations. -/
+theorem C11_previous_counterexample (fuel : Nat) (rq : Reqs) (e : Env) (maxv : Sel) (p : String) (hp : p ≠ "")
+    (hloc : located e p = true) (st : DState)
+    (hex : (⟨p, .root⟩ : Mod) ∈ st.excluded) (hadded : (⟨p, .root⟩ : Mod) ∈ st.added) (n : Nat) :
+    previousD13 e ⟨p, .root⟩ = some ⟨p, .root⟩ ∧
+    stepDown fuel rq (previousD13 e) maxv n st ⟨p, .root⟩ = .error .fuel :=
+  ⟨previousD13_fixpoint e p hp hloc, stepDown_D13_spins fuel rq e maxv p hp hloc st hex hadded n⟩
+
+/-! ### non-vacuity and the concrete witnesses of D13, D14, D15 -/
+
+namespace Example
+
+def R := "github.com/v/u"
+def A := "github.com/v/u/a"
+def B := "github.com/v/u/b"
+def P0 := "github.com/v/u/p0"
+def P1 := "github.com/v/u/p1"
+
+/-- D13's universe: a v1.1.0 → b v1.2.0; b v1.1.0; b v1.2.0; b v1.3.0 -/
+def summary13 : Mod → Option Summary
+  | ⟨"github.com/v/u/a", .sv ⟨1, 1, 0, []⟩⟩ => some ⟨"", [⟨B, v 1 2 0⟩]⟩
+  | ⟨"github.com/v/u/b", .sv ⟨1, 1, 0, []⟩⟩ => some ⟨"", []⟩
+  | ⟨"github.com/v/u/b", .sv ⟨1, 2, 0, []⟩⟩ => some ⟨"", []⟩
+  | ⟨"github.com/v/u/b", .sv ⟨1, 3, 0, []⟩⟩ => some ⟨"lib", []⟩
+  | _ => .none
+
+def env13 : Env := ⟨R, summary13, [⟨B, v 1 1 0⟩, ⟨A, v 1 1 0⟩, ⟨B, v 1 2 0⟩, ⟨B, v 1 3 0⟩], "main", fun _ _ => .none⟩
+def cfg13 : Config := [("a", ⟨A, v 1 1 0⟩), ("b", ⟨B, v 1 2 0⟩)]
+
+/-- `get` with the old `Reqs.Previous` -/
+def GetD13 (fuel : Nat) (e : Env) (c : Config) (query : String) : Except Err Config :=
+  transformReqs e c fun root => get fuel e (previousD13 e) root (parseVersionQuery query)
+
+/-- D13 on its failing input: the fixed model drops `a`, which has no older tag, and lands on b v1.1.0 … -/
+example : Get 30 env13 cfg13 "github.com/v/u/b@v1.1.0" = .ok [("b", ⟨B, v 1 1 0⟩)] := by rfl
+/-- … the old one does not return -/
+example : GetD13 30 env13 cfg13 "github.com/v/u/b@v1.1.0" = .error .fuel := by rfl
+
+/-- hypotheses of `C11_tidy`, `C11_idem_tidy`: b is implied by a -/
+example : Tidy 30 env13 cfg13 = .ok [("a", ⟨A, v 1 1 0⟩)] := by rfl
+example : Tidy 30 env13 [("a", ⟨A, v 1 1 0⟩)] = .ok [("a", ⟨A, v 1 1 0⟩)] := by rfl
+example : WellFormed env13 (cfg13.map (·.2)) := by
+  refine ⟨?_, ?_⟩
+  · intro m hm
+    simp only [cfg13, List.map_cons, List.map_nil, List.mem_cons, List.not_mem_nil, or_false] at hm
+    rcases hm with rfl | rfl <;> exact ⟨by decide, _, rfl⟩
+  · intro n s hs m hm
+    unfold env13 summary13 at hs
+    dsimp only at hs
+    split at hs <;> cases hs <;> simp at hm
+    subst hm; exact ⟨by decide, _, rfl⟩
+
+/-- hypotheses of `C11_upgrade`, `C11_upgrade_all`, `C11_get_idem`: an upgrade by range query that lands -/
+example : Get 30 env13 cfg13 "github.com/v/u/b@>v1.2.0" = .ok [("a", ⟨A, v 1 1 0⟩), ("b", ⟨B, v 1 3 0⟩)] := by rfl
+example : Get 30 env13 [("a", ⟨A, v 1 1 0⟩), ("b", ⟨B, v 1 3 0⟩)] "github.com/v/u/b@>v1.2.0" =
+    .ok [("a", ⟨A, v 1 1 0⟩), ("b", ⟨B, v 1 3 0⟩)] := by rfl
+example : UpgradeAll 30 env13 cfg13 = .ok [("a", ⟨A, v 1 1 0⟩), ("b", ⟨B, v 1 3 0⟩)] := by rfl
+/-- a new project gets its configured name; an existing name `lib` forces the suffix -/
+example : Get 30 env13 [("lib", ⟨A, v 1 1 0⟩)] "github.com/v/u/b@v1.3.0" =
+    .ok [("lib", ⟨A, v 1 1 0⟩), ("lib-1", ⟨B, v 1 3 0⟩)] := by rfl
+
+/-- D14 (fixed; regression witness): with two names for one path the old first loop of `transformReqs` depended on the
+order of the returned list (map iteration order in Go) and could lower the project … -/
+theorem C11_alias_counterexample :
+    firstLoopD14 [("n0", ⟨P0, v 1 4 0⟩), ("n1", ⟨P0, v 1 2 0⟩)] [⟨P1, v 1 4 0⟩, ⟨P0, v 1 4 0⟩, ⟨P0, v 1 2 0⟩] =
+      [("n0", ⟨P0, v 1 2 0⟩), ("n1", ⟨P0, v 1 2 0⟩)] ∧
+    firstLoopD14 [("n0", ⟨P0, v 1 4 0⟩), ("n1", ⟨P0, v 1 2 0⟩)] [⟨P1, v 1 4 0⟩, ⟨P0, v 1 2 0⟩, ⟨P0, v 1 4 0⟩] =
+      [("n0", ⟨P0, v 1 4 0⟩), ("n1", ⟨P0, v 1 4 0⟩)] := by
+  constructor <;> rfl
+
+/-- … the present one leaves every alias on its own requirement, in either order -/
+example : ∀ nv ∈ [[⟨P1, v 1 4 0⟩, ⟨P0, v 1 4 0⟩, ⟨P0, v 1 2 0⟩], [⟨P1, v 1 4 0⟩, ⟨P0, v 1 2 0⟩, ⟨P0, v 1 4 0⟩]],
+    ([("n0", ⟨P0, v 1 4 0⟩), ("n1", ⟨P0, v 1 2 0⟩)] : Config).filterMap
+      (fun nr => (pickFor nr.2 nv .none).map fun w => (nr.1, w)) = [("n0", ⟨P0, v 1 4 0⟩), ("n1", ⟨P0, v 1 2 0⟩)] := by
+  decide
+
+/-- D15's universe: p0 v1.1.0 → p1 v1.2.0; p0 v1.2.0; p1 v1.1.0; p1 v1.2.0 -/
+def summary15 : Mod → Option Summary
+  | ⟨"github.com/v/u/p0", .sv ⟨1, 1, 0, []⟩⟩ => some ⟨"", [⟨P1, v 1 2 0⟩]⟩
+  | ⟨"github.com/v/u/p0", .sv ⟨1, 2, 0, []⟩⟩ => some ⟨"", []⟩
+  | ⟨"github.com/v/u/p1", .sv ⟨1, 1, 0, []⟩⟩ => some ⟨"", []⟩
+  | ⟨"github.com/v/u/p1", .sv ⟨1, 2, 0, []⟩⟩ => some ⟨"", []⟩
+  | _ => .none
+
+def env15 : Env := ⟨R, summary15, [⟨P0, v 1 1 0⟩, ⟨P1, v 1 1 0⟩, ⟨P0, v 1 2 0⟩, ⟨P1, v 1 2 0⟩], "main", fun _ _ => .none⟩
+
+/-- D15 (known finding): the excluded case of `C11_get_idem` is real — the downgrade cannot land on p0 v1.1.0 (it needs
+p1 v1.2.0, newer than the current list), drops p0 and its name, and the second call adds p0 back. -/
+theorem C11_get_idem_counterexample :
+    Get 30 env15 [("n0", ⟨P0, v 1 2 0⟩), ("n1", ⟨P1, v 1 1 0⟩)] "github.com/v/u/p0@v1.1.0" = .ok [("n1", ⟨P1, v 1 1 0⟩)] ∧
+    Get 30 env15 [("n1", ⟨P1, v 1 1 0⟩)] "github.com/v/u/p0@v1.1.0" =
+      .ok [("n1", ⟨P1, v 1 1 0⟩), ("p0", ⟨P0, v 1 1 0⟩)] := by
+  constructor <;> rfl
 
 end Example
 
